@@ -299,17 +299,18 @@ static int deliver_all(int maxrounds)
 	return rounds;
 }
 
-int handle_line(char *l)
+/* one session: relay + client settings from 20 numbers at *pp; fresh = start a new server (else the same server instance
+ * goes on, its clock already advanced); quiet = print nothing */
+static int session(char **pp, int fresh, int quiet)
 {
 	int v[21], i, rv, npk, okup = 0, okdown = 0, upn = 0, downn = 0;
-	char *p = l, rep[256];
+	char *p = *pp, rep[256];
 	unsigned long seed;
-	if (strncmp(l, "G ", 2))
-		return 0;
-	p += 2;
 	seed = strtoul(p, &p, 10);
-	for (i = 0; i < 18; i++)
+	for (i = 0; i < 19; i++)
 		v[i] = (int)strtol(p, &p, 10);
+	npk = v[18];
+	*pp = p;
 	R.qcase = v[0]; R.q8 = v[1]; R.qpunct = v[2]; R.acase = v[3]; R.a8 = v[4]; R.apunct = v[5];
 	R.types = v[6]; R.sizelimit = v[7]; R.edns = v[8]; R.rawok = v[9]; R.fuzz = v[10];
 	rr_state = seed * 2654435761UL + 12345;
@@ -317,24 +318,27 @@ int handle_line(char *l)
 	timeouts = 0;
 	queries_seen = answers_dropped = answers_delivered = 0;
 	in_server = 0;
-	verif_now = 3000000;
-	srv_init("t.example.com", "sesame", 1, "10.0.0.1", 27, 1130);
+	if (fresh) {
+		verif_now = 3000000;
+		srv_init("t.example.com", "sesame", 1, "10.0.0.1", 27, 1130);
+	}
 	cli_prepare_handshake("t.example.com", "sesame", v[11], (char)v[12], v[13], v[17]);
 	wire_sendto_hook = on_sendto;
 	wire_select_hook = on_select;
 	cap_reset();
 	sys_ret = 0;
 	if (setjmp(bail)) {
-		printf("BAIL %d q=%ld\n", bail_code, queries_seen);
+		if (!quiet)
+			printf("BAIL %d q=%ld\n", bail_code, queries_seen);
 		wire_sendto_hook = NULL;
 		wire_select_hook = NULL;
 		return 1;
 	}
 	rv = client_handshake(20, v[14], v[15], v[16]);
 	cli_report(rep, sizeof(rep));
-	printf("%d %s srvfrag=%d q=%ld drop=%ld", rv, rep, rv == 0 ? srv_user(cli_userid() & 15)->fragsize : -1,
-	       queries_seen, answers_dropped);
-	npk = (int)strtol(p, &p, 10);
+	if (!quiet)
+		printf("%d %s srvfrag=%d q=%ld drop=%ld", rv, rep, rv == 0 ? srv_user(cli_userid() & 15)->fragsize : -1,
+		       queries_seen, answers_dropped);
 	if (rv == 0 && npk > 0) {
 		/* packets both ways through the same relay */
 		cli_start_tunnel();
@@ -377,10 +381,33 @@ int handle_line(char *l)
 			if (tun_written_count >= 1 && tun_written_len[0] == n && !memcmp(tun_written[0], pk, n))
 				okdown++;
 		}
-		printf(" | up %d/%d down %d/%d", okup, upn, okdown, downn);
+		if (!quiet)
+			printf(" | up %d/%d down %d/%d", okup, upn, okdown, downn);
 	}
-	putchar('\n');
+	if (!quiet)
+		putchar('\n');
 	wire_sendto_hook = NULL;
 	wire_select_hook = NULL;
 	return 1;
+}
+
+/* G <20 numbers>            one session on a fresh server
+ * GG <20 numbers> <20 numbers>
+ *                           a first session (nothing printed) on a fresh server; its client then falls silent, the clock moves
+ *                           past the 60 s after which the server hands the slot to the next client; the second session
+ *                           runs on that same server and is reported exactly like a G case */
+int handle_line(char *l)
+{
+	char *p;
+	if (!strncmp(l, "G ", 2)) {
+		p = l + 2;
+		return session(&p, 1, 0);
+	}
+	if (!strncmp(l, "GG ", 3)) {
+		p = l + 3;
+		session(&p, 1, 1);
+		verif_now += 61 + (verif_now % 7);
+		return session(&p, 0, 0);
+	}
+	return 0;
 }
